@@ -328,7 +328,7 @@ func internalUnmarshal(v *internalStruct) (any, error) {
 		rvt = resolvePointerNum(v.MapValuePointerNum, rvt)
 
 		// todo: if all values are based, can use unmarshal instead of internalUnmarshal
-		result, dResult := createValueFromType(reflect.MapOf(rkt, rvt))
+		result, dResult := createValueFromType(resolvePointerNum(v.PointerNum, reflect.MapOf(rkt, rvt)))
 		for marshaledMapKey, internalValue := range v.MapValues {
 			prkv := reflect.New(rkt)
 			err := sonic.UnmarshalString(marshaledMapKey, prkv.Interface())
@@ -357,7 +357,7 @@ func internalUnmarshal(v *internalStruct) (any, error) {
 	rvt = resolvePointerNum(v.SliceValuePointerNum, rvt)
 
 	// todo: if all slice values are based, can use unmarshal instead of internalUnmarshal
-	result, dResult := createValueFromType(reflect.SliceOf(rvt))
+	result, dResult := createValueFromType(resolvePointerNum(v.PointerNum, reflect.SliceOf(rvt)))
 	for _, internalValue := range v.SliceValues {
 		value, err := internalUnmarshal(internalValue)
 		if err != nil {
